@@ -1,0 +1,117 @@
+//go:build verif
+// +build verif
+
+package pdnode_coord
+
+import (
+	"sync/atomic"
+	"time"
+
+	"github.com/youzan/ZanRedisDB/cluster"
+)
+
+// Exports for the verification harness (/verif): the unexported placement functions and
+// the coordinator's decision methods, so that they can be driven with an in-memory
+// register and scripted data-node answers.  Nothing here decides anything.
+
+// VerifRebalance is getRebalancedNamespacePartitions.
+func VerifRebalance(ns string, partitionNum int, replica int, old [][]string,
+	nodes map[string]cluster.NodeInfo, balanceVer string) ([][]string, *cluster.CoordErr) {
+	return getRebalancedNamespacePartitions(ns, partitionNum, replica, old, nodes, balanceVer)
+}
+
+// VerifNodeRing returns the per-data-centre sorted node lists (getNodeNameList).
+func VerifNodeRing(nodes map[string]cluster.NodeInfo) [][]string {
+	l := getNodeNameList(nodes)
+	out := make([][]string, 0, len(l))
+	for _, x := range l {
+		out = append(out, []string(x))
+	}
+	return out
+}
+
+// VerifNewCoordinator builds a PDCoordinator that believes it is the leader, uses reg as
+// its register and never starts a background goroutine.
+func VerifNewCoordinator(reg cluster.PDRegister, balanceVer string, autoBalance bool) *PDCoordinator {
+	me := cluster.NodeInfo{NodeIP: "127.0.0.1", HttpPort: "1", RegID: 9999}
+	pd := NewPDCoordinator("verif", &me, &cluster.Options{AutoBalanceAndMigrate: autoBalance,
+		BalanceVer: balanceVer, BalanceStart: 0, BalanceEnd: 24})
+	pd.SetRegister(reg)
+	pd.leaderNode = pd.myNode
+	return pd
+}
+
+// VerifSetIntervals shortens the waiting periods of the migration logic (timing is not
+// part of what is verified).
+func VerifSetIntervals(waitMigrate, waitRemoveRemoving time.Duration) {
+	waitMigrateInterval = waitMigrate
+	waitRemoveRemovingNodeInterval = waitRemoveRemoving
+}
+
+// VerifSetNodes installs the table of live data nodes the way handleDataNodes does
+// (new table, epoch bump, stable node number only grows) and returns the nodes epoch.
+func VerifSetNodes(pd *PDCoordinator, nodes map[string]cluster.NodeInfo) int64 {
+	pd.nodesMutex.Lock()
+	pd.dataNodes = nodes
+	if int32(len(nodes)) > atomic.LoadInt32(&pd.stableNodeNum) {
+		atomic.StoreInt32(&pd.stableNodeNum, int32(len(nodes)))
+	}
+	pd.nodesMutex.Unlock()
+	return atomic.AddInt64(&pd.nodesEpoch, 1)
+}
+
+func VerifNodesEpoch(pd *PDCoordinator) int64 { return atomic.LoadInt64(&pd.nodesEpoch) }
+
+func VerifSetClusterStable(pd *PDCoordinator, stable bool) {
+	if stable {
+		atomic.StoreInt32(&pd.isClusterUnstable, 0)
+	} else {
+		atomic.StoreInt32(&pd.isClusterUnstable, 1)
+	}
+}
+
+// VerifMigrate is handleNamespaceMigrate.
+func VerifMigrate(pd *PDCoordinator, ns *cluster.PartitionMetaInfo, nodes map[string]cluster.NodeInfo,
+	nodesEpoch int64) *cluster.CoordErr {
+	return pd.handleNamespaceMigrate(ns, nodes, nodesEpoch)
+}
+
+// VerifAddTo is addNamespaceToNode.
+func VerifAddTo(pd *PDCoordinator, ns *cluster.PartitionMetaInfo, nid string) *cluster.CoordErr {
+	return pd.addNamespaceToNode(ns, nid)
+}
+
+// VerifRemoveFrom is removeNamespaceFromNode.
+func VerifRemoveFrom(pd *PDCoordinator, ns *cluster.PartitionMetaInfo, nid string) *cluster.CoordErr {
+	return pd.removeNamespaceFromNode(ns, nid)
+}
+
+// VerifFinishRemovings is removeNamespaceFromRemovings.
+func VerifFinishRemovings(pd *PDCoordinator, ns *cluster.PartitionMetaInfo) {
+	pd.removeNamespaceFromRemovings(ns)
+}
+
+// VerifCheckNamespaces is one doCheckNamespaces round over all namespaces; waiting is the
+// caller-kept "waiting migrate" table of checkNamespaces.
+func VerifCheckNamespaces(pd *PDCoordinator, waiting map[string]map[int]time.Time, fullCheck bool) {
+	pd.doCheckNamespaces(pd.monitorChan, nil, waiting, fullCheck)
+}
+
+// VerifDecideUnwanted is DataPlacement.decideUnwantedRaftNode.
+func VerifDecideUnwanted(pd *PDCoordinator, ns *cluster.PartitionMetaInfo, nodes map[string]cluster.NodeInfo) string {
+	return pd.dpm.decideUnwantedRaftNode(ns, nodes)
+}
+
+// VerifAllocNode is DataPlacement.allocNodeForNamespace.
+func VerifAllocNode(pd *PDCoordinator, ns *cluster.PartitionMetaInfo, nodes map[string]cluster.NodeInfo) (string, *cluster.CoordErr) {
+	n, err := pd.dpm.allocNodeForNamespace(ns, nodes)
+	if err != nil || n == nil {
+		return "", err
+	}
+	return n.GetID(), nil
+}
+
+// VerifRebalanceRound is one DataPlacement.rebalanceNamespace round.
+func VerifRebalanceRound(pd *PDCoordinator) (bool, bool) {
+	return pd.dpm.rebalanceNamespace(pd.monitorChan)
+}
